@@ -1,5 +1,5 @@
 SPECIFICATION Spec
-CONSTANTS MaxOps = 4
+CONSTANTS MaxOps = 3
  MaxLines = 15
  MaxPrevs = 3
  Shape = 1
